@@ -768,6 +768,12 @@ class CeiloChunk(AbstractChunk):
             raise AmpycloudError('Slicing not yet done. You cannot find groups without ' +
                                  'finding slices first !')
 
+        # Likewise, if the layering was already done, refuse *before* touching anything, so that
+        # the existing groups and layers remain intact.
+        if self._layers is not None:
+            raise AmpycloudError('Layering already done. If you re-compute your groups now, '
+                                 'you will loose the layering information !')
+
         # First, make sure that we can keep track of the isolation status of slices.
         self._slices['isolated'] = None
 
